@@ -223,3 +223,23 @@ pub proof fn lemma_valp_ext_imp(s: Seq<u64>, t: Seq<u64>, k: nat)
 {
     if forall|i: int| 0 <= i < k ==> s[i] == t[i] { lemma_valp_ext(s, t, k); }
 }
+
+/// val(s) == 0 iff every digit is zero
+pub proof fn lemma_valp_zero_iff(s: Seq<u64>, k: nat)
+    requires k <= s.len()
+    ensures (valp(s, k) == 0) <==> (forall|i: int| 0 <= i < k ==> s[i] == 0)
+    decreases k
+{
+    if k > 0 {
+        let k1 = (k - 1) as nat;
+        lemma_valp_zero_iff(s, k1);
+        lemma_pw_pos(k1);
+        let d = s[k1 as int] as nat;
+        let p = pw(k1);
+        if d == 0 {
+            assert(0 * p == 0) by (nonlinear_arith);
+        } else {
+            assert(d * p >= 1) by (nonlinear_arith) requires d >= 1, p >= 1;
+        }
+    }
+}
